@@ -95,8 +95,18 @@ Record cellcase := mkCellCase {
   cc_trs : list (Z * nat); cc_imps : list (option float); cc_rank : nat;
   cc_latopt : option bounds; cc_toks : list ftok }.
 
+(* the values the harness attaches to the tokens are checked where the model
+   can read the spelling itself: a token that is an integer to Python's int()
+   must carry that integer *)
+Definition tok_ok (t : ftok) : bool :=
+  match py_int (tsp t) with
+  | Some z => (tint t =? z)%Z
+  | None => true
+  end.
+
 Definition check_cellopts (c : cellcase * res (cellsum (T:=float))) : bool :=
   let i := fst c in
+  forallb tok_ok (cc_toks i) &&
   res_eqb cellsum_eqb (parse_cell FS (cc_trs i) (cc_imps i) (cc_rank i) (cc_latopt i) (cc_toks i)) (snd c).
 
 (* (f) IMP data cards *)
@@ -110,6 +120,8 @@ Definition check_material (c : list string * res unit) : bool :=
 (* (i) a whole deck *)
 Definition fdeck := deckm (T:=float).
 Definition check_deck (c : fdeck * res unit) : bool :=
+  forallb (fun cl => forallb tok_ok (c_toks cl)) (d_cells (fst c)) &&
+  forallb (forallb tok_ok) (d_imps (fst c)) &&
   res_eqb unit_eqb (validate FS (fst c)) (snd c).
 Definition deck_modelled (c : fdeck * res unit) : bool := negb (unmodelled (validate FS (fst c))).
 Definition cell_modelled (c : cellcase * res (cellsum (T:=float))) : bool :=
